@@ -779,6 +779,28 @@ def run(tier, seed):
     def tol_of(nd):
         return 16 * nd.err + 1e-300
 
+    # symbols that are the pure number 1 (`dimensionless`, `counts`, `photons`, …): powers of them are
+    # interchangeable labels of the same unit.  (`x**-1` and `x**-2` even collide in `hash` — hash(-1) == hash(-2) —
+    # so the process-wide lru caches of the rule functions may hand back one for the other: a C12 matter.)
+    _lut = gen.extract()["lut"]
+    UNITY = {k for k, v in _lut.items() if core.b2f(v[0]) == 1.0 and core.b2f(v[1]) == 0.0 and all(x == "0" for x in v[2])}
+
+    def label(fac):
+        return {k: v for k, v in gen.parse_factors(fac).items() if k not in UNITY}
+
+    def same_label(a, b):
+        """the same unit with the same label (powers of the unity symbols aside)"""
+        if not (a == b):
+            return False
+        if a.expr == b.expr:
+            return True
+        try:
+            fa = {k_: v_ for k_, v_ in gen.unit_factors(a).items() if k_ not in UNITY}
+            fb = {k_: v_ for k_, v_ in gen.unit_factors(b).items() if k_ not in UNITY}
+            return fa == fb
+        except ValueError:
+            return False
+
     def compare_node(nd, v, P, outcome, mixed_sp=False):
         """None if the library's node result v agrees with the reference, else (kind, message)"""
         op = nd.desc[0]
@@ -811,7 +833,7 @@ def run(tier, seed):
             return ("dim", f"dimension {v.units.dimensions} differs from dimensional analysis {dstr(nd.dim)}")
         if not nd.bare and op in PRESERVE_LABEL:
             left = outcome[nd.desc[2][0]][1]
-            if hasattr(left, "units") and not (v.units == left.units and v.units.expr == left.units.expr):
+            if hasattr(left, "units") and not same_label(v.units, left.units):
                 return ("label", f"result unit {v.units} is not the left operand's unit {left.units}")
         if not nd.bare and not mixed_sp:
             # the label must denote the scale it carries (so that later operations may rely on either); with
@@ -1297,7 +1319,7 @@ def run(tier, seed):
         except ValueError:
             return True
         return (core.close(core.b2f(rep[at + 1]), float(u.base_value), 1e-9) and rep[at + 3] == want[2]
-                and gen.parse_factors(rep[at + 5]) == gen.parse_factors(want[4])
+                and label(rep[at + 5]) == label(want[4])
                 and core.close(core.b2f(rep[at + 4]), core.b2f(want[3]), 1e-9))
 
     def vclose(a, b, scale):
